@@ -350,6 +350,194 @@ example :
     gramService .fixed2 .all [(1, 7), (2, 8), (3, 7)] [some ⟨.osError, ECONNREFUSED⟩]
       = .ok [(2, 8)] [(1, 7), (3, 7)] := by decide
 
+/-! ## … over several passes: a transient error stays transient -/
+
+theorem gramOne_script {v : Version} {p : Pkt} {sc sc' : List (Option Err)} {sent laters s' l' : List Pkt}
+    {bl bl' : List Nat} (h : gramOne v p sc sent laters bl = some (s', l', bl', sc')) :
+    sc' = sc ∨ sc' = sc.tail := by
+  unfold gramOne at h
+  split at h
+  · cases h; exact Or.inl rfl
+  · split at h
+    · cases h; exact Or.inr rfl
+    · split at h
+      · cases h; exact Or.inr rfl
+      · cases h
+
+theorem gramLoopRest_subset (v : Version) (q : List Pkt) (sc : List (Option Err)) (bl : List Nat) :
+    ∀ a ∈ gramLoopRest v q sc bl, a ∈ sc := by
+  induction q generalizing sc bl with
+  | nil => intro a ha; exact ha
+  | cons p rest ih =>
+    intro a ha
+    unfold gramLoopRest at ha
+    split at ha
+    · next s' l' bl' sc' h =>
+      have := ih sc' bl' a ha
+      rcases gramOne_script h with rfl | rfl
+      · exact this
+      · exact List.mem_of_mem_tail this
+    · exact List.mem_of_mem_tail ha
+
+theorem gramRest_subset (v : Version) (entry : GramEntry) (q : List Pkt) (sc : List (Option Err)) :
+    ∀ a ∈ gramRest v entry q sc, a ∈ sc := by
+  have hloop := gramLoopRest_subset v q sc []
+  have honce : ∀ a ∈ (match q with
+      | [] => sc
+      | p :: _ => match gramOne v p sc [] [] [] with
+        | some (_, _, _, sc') => sc'
+        | none => sc.tail), a ∈ sc := by
+    intro a ha
+    cases q with
+    | nil => exact ha
+    | cons p rest =>
+      simp only at ha
+      split at ha
+      · next s' l' bl' sc' h =>
+        rcases gramOne_script h with rfl | rfl
+        · exact ha
+        · exact List.mem_of_mem_tail ha
+      · exact List.mem_of_mem_tail ha
+  cases entry <;> first | exact hloop | exact honce
+
+/-- the queue after a sequence of passes -/
+def finalQueue (v : Version) : List GramEntry → List Pkt → List (Option Err) → List Pkt
+  | [], q, _ => q
+  | en :: rest, q, sc => finalQueue v rest (gramService v en q sc).queue (gramRest v en q sc)
+
+/-- **C25, datagram clause over histories.** Any sequence of service passes through any of the five
+entry points, any queue: as long as every `sendto` succeeds or fails with a transient destination
+error, no pass raises, and the packets sent over all passes together with the packets still queued at
+the end are exactly the packets that were queued. -/
+theorem C25_gram_passes_never_lose (v : Version) (entries : List GramEntry) (q : List Pkt)
+    (script : List (Option Err)) (hs : TransientScript script) :
+    (∀ r ∈ gramPasses v entries q script, r.1.isOk = true) ∧
+    (((gramPasses v entries q script).map (·.1.sent)).flatten ++ finalQueue v entries q script).Perm q := by
+  induction entries generalizing q script with
+  | nil => exact ⟨fun _ h => (nomatch h), by simp [gramPasses, finalQueue]⟩
+  | cons en rest ih =>
+    obtain ⟨sent, queue, hr, hp⟩ := C25_gram_service_never_loses v en q script hs
+    have hs' : TransientScript (gramRest v en q script) := fun a ha => hs a (gramRest_subset v en q script a ha)
+    obtain ⟨h1, h2⟩ := ih queue (gramRest v en q script) hs'
+    simp only [gramPasses, finalQueue, hr, GramRes.queue, List.map_cons, List.flatten_cons, GramRes.sent]
+    constructor
+    · intro r hmem
+      rcases List.mem_cons.mp hmem with rfl | hmem
+      · rfl
+      · exact h1 r hmem
+    · rw [List.append_assoc]
+      exact (List.Perm.append_left sent h2).trans hp
+
+theorem gramLoop_no_error (v : Version) (q sent : List Pkt) :
+    gramLoop v q [] sent [] [] = .ok (sent ++ q) [] := by
+  induction q generalizing sent with
+  | nil => simp [gramLoop]
+  | cons p rest ih =>
+    have h1 : gramOne v p [] sent [] [] = some (sent ++ [p], [], [], []) := by
+      simp [gramOne]
+    simp only [gramLoop, h1]
+    rw [ih]; simp
+
+/-- **C25, recovery.** A whole-queue pass in which no `sendto` fails sends every queued packet — also the
+ones a transient error held back on an earlier pass: nothing a previous pass saw (blocked destinations,
+deferred packets) is carried over. -/
+theorem C25_gram_recovers (v : Version) (entry : GramEntry)
+    (hfull : entry = .txPkts ∨ entry = .allTx ∨ entry = .all) (q : List Pkt) :
+    gramService v entry q [] = .ok q [] := by
+  have := gramLoop_no_error v q []
+  rcases hfull with rfl | rfl | rfl <;> simpa [gramService] using this
+
+/-- non-vacuity: destination 7 refuses on the first pass, answers on the second -/
+example :
+    gramPasses .fixed2 [.all, .all] [(1, 7), (2, 8), (3, 7)] [some ⟨.osError, ECONNREFUSED⟩]
+      = [(.ok [(2, 8)] [(1, 7), (3, 7)], 1), (.ok [(1, 7), (3, 7)] [], 0)] := by decide
+
+/-! ## stream clients through close / re-open: the ladder is applied on the socket that is current -/
+
+/-- number of `reopen` operations in a history -/
+def reopens : List SessOp → Nat
+  | [] => 0
+  | .reopen :: ops => reopens ops + 1
+  | _ :: ops => reopens ops
+
+/-- **C25, re-opened clients.** `Client` and `ClientTls`, any history of receives, sends, closes and
+re-opens with any answers: every `receive` / `send` that reaches a socket reaches the one opened by the
+most recent `reopen` (never a socket of an earlier connection), and an error answer is classified by the
+ladder of that call's site starting from the cutoff flag `open()` reset. -/
+theorem C25_io_uses_current_socket (v : Version) (tls : Bool) (ops : List SessOp) :
+    ∀ i (h : i < (sessRun v { tls := tls } ops).length),
+      (∀ k, (sessRun v { tls := tls } ops)[i] = .done k → k + 1 = reopens (ops.take i)) ∧
+      (∀ k r c, (sessRun v { tls := tls } ops)[i] = .classified k r c → k + 1 = reopens (ops.take i)) := by
+  have key : ∀ (s : Sess) (ops : List SessOp), (∀ k, s.cur = some k → k + 1 = s.next) →
+      ∀ i (h : i < (sessRun v s ops).length),
+        (∀ k, (sessRun v s ops)[i] = .done k → k + 1 = s.next + reopens (ops.take i)) ∧
+        (∀ k r c, (sessRun v s ops)[i] = .classified k r c → k + 1 = s.next + reopens (ops.take i)) := by
+    intro s ops
+    induction ops generalizing s with
+    | nil => intro _ i h; simp [sessRun] at h
+    | cons op rest ih =>
+      intro hinv i h
+      cases i with
+      | zero =>
+        simp only [sessRun, List.getElem_cons_zero, List.take_zero, reopens, Nat.add_zero]
+        cases op with
+        | io isSend ans =>
+          simp only [sessStep]
+          cases hc : s.cur with
+          | none => exact ⟨fun k hk => by simp at hk, fun k r c hk => by simp at hk⟩
+          | some k0 =>
+            cases ans with
+            | none =>
+              refine ⟨fun k hk => ?_, fun k r c hk => by simp at hk⟩
+              simp only [SessOut.done.injEq] at hk
+              subst hk; exact hinv k0 hc
+            | some e =>
+              refine ⟨fun k hk => by simp at hk, fun k r c hk => ?_⟩
+              simp only [SessOut.classified.injEq] at hk
+              obtain ⟨rfl, _, _⟩ := hk; exact hinv k0 hc
+        | close => exact ⟨fun k hk => by simp [sessStep] at hk, fun k r c hk => by simp [sessStep] at hk⟩
+        | reopen => exact ⟨fun k hk => by simp [sessStep] at hk, fun k r c hk => by simp [sessStep] at hk⟩
+      | succ j =>
+        have hj : j < (sessRun v (sessStep v s op).1 rest).length := by
+          simp only [sessRun, List.length_cons] at h; omega
+        have hinv' : ∀ k, (sessStep v s op).1.cur = some k → k + 1 = (sessStep v s op).1.next := by
+          cases op with
+          | io isSend ans =>
+            simp only [sessStep]
+            cases hc : s.cur with
+            | none => intro k hk; simp [hc] at hk
+            | some k0 =>
+              cases ans with
+              | none => intro k hk; simp only [hc] at hk; exact hinv k (by rw [hc]; exact hk)
+              | some e => intro k hk; simp only [hc] at hk; exact hinv k (by rw [hc]; exact hk)
+          | close => intro k hk; simp [sessStep] at hk
+          | reopen => intro k hk; simp only [sessStep, Option.some.injEq] at hk; subst hk; rfl
+        have := ih (sessStep v s op).1 hinv' j hj
+        have hnext : (sessStep v s op).1.next + reopens (rest.take j) = s.next + reopens ((op :: rest).take (j + 1)) := by
+          cases op with
+          | io isSend ans =>
+            simp only [sessStep, List.take_succ_cons, reopens]
+            cases s.cur with
+            | none => rfl
+            | some k0 => cases ans <;> rfl
+          | close => simp [sessStep, reopens]
+          | reopen => simp only [sessStep, List.take_succ_cons, reopens]; omega
+        simp only [sessRun, List.getElem_cons_succ]
+        rw [← hnext]
+        exact this
+  intro i h
+  have := key { tls := tls } ops (fun k hk => by simp at hk) i h
+  simpa using this
+
+/-- non-vacuity: a TLS client uses socket 0, is cut off by a reset, closes, re-opens, and the would-block of
+socket 1 is answered from a clean state -/
+example :
+    sessRun .fixed2 { tls := true }
+      [.reopen, .io true none, .io false (some ⟨.osError, ECONNRESET⟩), .close, .io false none, .reopen,
+       .io false (some ⟨.sslWantRead, 2⟩), .io true none]
+    = [.opened 0, .done 0, .classified 0 .emptyBytes true, .closed, .noSocket, .opened 1,
+       .classified 1 .noneVal false, .done 1] := by decide
+
 /-! ## the code as found (what the two patches change) -/
 
 /-- D26 as found: `ssl.SSLEOFError` sits in the tuple as a class, `ex.args[0]` is the number 8, so a
